@@ -175,13 +175,17 @@ def compare_outputs(ctx, prop_sig, p, runs, res, extra=None):
     return dis
 
 
+def _special_values_cfg():
+    return programs.Config(families=("arith", "compare", "where", "math", "remap", "index", "like"),
+                           dtypes=("float64", "float32", "int32", "int64"), allow_zero_size=False)
+
+
 def batch_special_values(ctx):
     """'every set of input values': elementwise programs (no reductions / contractions / casts, whose NaN
     conventions are a matter of the C library) on inputs containing NaN, +-inf and -0.0: NaN positions and all other
     values as NumPy's"""
     n = 500 if ctx.thorough else 90
-    cfg = programs.Config(families=("arith", "compare", "where", "math", "remap", "index", "like"),
-                          dtypes=("float64", "float32", "int32", "int64"), allow_zero_size=False)
+    cfg = _special_values_cfg()
     nprng = np.random.default_rng(ctx.seed * 7 + 19)
     progs, jobs = [], []
     for i in range(n):
@@ -201,7 +205,7 @@ def batch_special_values(ctx):
                     inp[k] = v
             runs.append(inp)
         progs.append((p, runs))
-        jobs.append(cexec.Job(tag=f"sv{i}", expr=p.expr(), runs=runs, prep=_prep_dedup))
+        jobs.append(cexec.Job(tag=f"sv{i}", expr=p.expr(), runs=runs, prep=_prep_dedup, want_source=True))
     res = cexec.run_jobs(ctx, jobs)
     dis = 0
     ops: dict[str, int] = {}
@@ -551,12 +555,15 @@ def replay(ctx, path):
     r = json.loads(open(path).read())
     print(json.dumps({k: r.get(k) for k in ("signature", "what", "program_index", "seed", "ops")}, indent=1))
     if "program_index" in r:
-        p = programs.generate(int(r["seed"]), int(r["program_index"]))
+        if r.get("stream") == "special-values":
+            p = programs.generate(int(r["seed"]) + 1900, int(r["program_index"]), _special_values_cfg())
+        else:
+            p = programs.generate(int(r["seed"]), int(r["program_index"]))
         print("outputs:", {k: (v.shape, v.dtype) for k, v in p.outputs.items()})
         runs = [{k: np.asarray(v) for k, v in r.get("inputs", {}).items()}] if r.get("inputs") else \
             [p.make_inputs(np.random.default_rng(0))]
         runs = [{k: np.asarray(v, dtype=p.inputs[k][1]).reshape(p.inputs[k][0]) for k, v in runs[0].items()}]
-        res = cexec.run_jobs(ctx, [cexec.Job("replay", p.expr(), runs, prep=_prep_dedup)])[0]
+        res = cexec.run_jobs(ctx, [cexec.Job("replay", p.expr(), runs, prep=_prep_dedup, want_source=True)])[0]
         d = compare_outputs(ctx, "loopy", p, runs, res)
         print("disagreements on replay:", d)
     return ctx.finish()
